@@ -117,6 +117,7 @@ def run(F, rep, tier):
     units_rule(F, rep)
     slice_end_rule(F, rep)
     feel_equality_rule(F, rep)
+    arity_rule(F, rep)
     search_direction_rule(F, rep)
     adt = F.adts.get(BIF)
     if adt is None:
@@ -448,9 +449,67 @@ def feel_equality_rule(F, rep):
                 bad += 1
                 rep.violation(rid, "%s:derived-eq" % name.split("::")[-1], "%s compares FEEL values with Rust's derived equality (%s at line %s): nulls with different diagnostics, numbers of different scale "
                               "inside nested values etc. compare unequal although `=` says equal" % (name.split("::")[-1], cal.split("::")[-1], x.get("l")), "%s:%s" % (h["file"], x.get("l")))
+    # membership / de-duplication keyed by a *rendering* of the value (to_feel_string, to_string, jsonify, format!): 1 and 1.0, 0.5 and 0.50 are equal in FEEL and render differently
+    RENDER = ("to_feel_string", "to_string", "jsonify")
+    KEYED = re.compile(r"(HashSet|BTreeSet|HashMap|BTreeMap|IndexSet|IndexMap)::<.*>::(insert|contains|contains_key|entry|get|replace|remove)$|slice::<impl \[T\]>::contains$|Vec::<.*>::(contains|dedup)$")
+    for name, h in sorted(F.hir.items()):
+        if not name.startswith("dmntk_feel_evaluator::bifs::core::"):
+            continue
+        bodies = [h]
+        al = {}
+        for st, _ in find_hir(h["body"], lambda x: x.get("k") == "LetStmt" and x.get("p", {}).get("k") == "Bind" and "e" in x):
+            al[st["p"]["name"]] = st["e"]
+
+        def renders_value(e, depth=0):
+            if depth > 4:
+                return None
+            for x, _ in find_hir(e, lambda x: x.get("k") == "MethodCall" and x.get("method") in RENDER):
+                r = x.get("recv", {})
+                tys = [F.ty(h, r[k]) for k in ("t", "adj_t") if r.get(k) is not None]
+                if any(re.search(r"dmntk_feel::values::Values?\b", t) for t in tys):
+                    return x.get("method")
+            for x, _ in find_hir(e, lambda x: x.get("k") == "Path" and x.get("res") == "local" and x.get("name") in al):
+                r = renders_value(al[x["name"]], depth + 1)
+                if r:
+                    return r
+            return None
+        for x, _ in find_hir(h["body"], lambda x: x.get("k") == "MethodCall" and KEYED.search(x.get("callee") or "")):
+            how = renders_value(x.get("args", []))
+            if how:
+                bad += 1
+                rep.violation(rid, "%s:rendered-key" % name.split("::")[-1], "%s decides membership / equality of FEEL values by their text (%s() as key of %s at line %s): values that are equal in FEEL but written "
+                              "differently (1 and 1.0, 0.5 and 0.50) are taken for different" % (name.split("::")[-1], how, x["callee"].split("::")[0].split("<")[0] or "a set", x.get("l")), "%s:%s" % (h["file"], x.get("l")))
     if not bad:
         rep.ok(rid, "feel-equality", "%d core functions, no derived comparison of Value" % n)
     rep.floor(rid, "core built-in functions", n, 60)
+
+
+def arity_rule(F, rep):
+    """R08.10: a positional wrapper looks at its whole argument list: a slice pattern that matches some leading arguments and ignores the rest (`[first, ..]`)
+    accepts calls with surplus arguments and silently drops them - the specification gives null for a wrong number of arguments."""
+    rid = rep.rule("R08.10", "positional wrappers never ignore surplus arguments: no slice pattern with an unbound rest over the parameter list")
+    n = 0
+    bad = 0
+    for name, h in sorted(F.hir.items()):
+        if not name.startswith("dmntk_feel_evaluator::bifs::positional::") or "{closure" in name:
+            continue
+        n += 1
+        for m, _ in find_hir(h["body"], lambda x: x.get("k") in ("Match", "If", "LetStmt")):
+            pats = [a["p"] for a in m.get("arms", [])] if m.get("k") == "Match" else [strip(m.get("c", {})).get("p")] if m.get("k") == "If" else [m.get("p")]
+            scr = strip(m.get("e") or strip(m.get("c", {})).get("e") or {})
+            while scr.get("k") in ("MethodCall",) and scr.get("method") in ("as_slice", "as_ref", "deref", "iter"):
+                scr = strip(scr["recv"])
+            if not (scr.get("k") == "Path" and scr.get("res") == "local" and scr.get("name") in [p.get("name") for p in h.get("params", [])]):
+                continue
+            for p in pats:
+                for q, _ in find_hir({"k": "x", "p": p}, lambda x: x.get("k") == "Slice" and x.get("rest") and not x.get("rest_bound", False)):
+                    if q.get("ps") or q.get("after"):
+                        bad += 1
+                        rep.violation(rid, "%s:rest" % name.split("::")[-1], "%s matches its arguments with a pattern that ignores everything after the first %d argument(s): a call with surplus arguments is "
+                                      "evaluated on the leading ones instead of answering null" % (name.split("::")[-1], len(q.get("ps", []))), "%s:%s" % (h["file"], m.get("l", h["line"])))
+    if not bad:
+        rep.ok(rid, "arity", "%d positional wrappers, none ignores surplus arguments" % n)
+    rep.floor(rid, "positional wrappers", n, 60)
 
 
 # built-ins the specification defines on the FIRST occurrence of the match (DMN 1.3 table 71: substring before / after, contains, index of ... in list order)
